@@ -22,6 +22,7 @@ EXPLANATION = (
     "the literal read by spikeglx at NP2.4. Interruption at every step and equality of disk states across run histories "
     "are NOT decided (they need execution)."
     ' (D1/D2 as built) the verification state is whatever instance state the deletion guard reads (a flag, a set of pending shanks, None ...): the guard must evaluate to false for the value init_params assigns, and every write that can make it true sits in check_NP24 after the asserting loop.'
+    " (D6) a forced re-run starts every shank file empty (same file-effect model as C03-D8); file creation in the prepare step is recognised through the file-effect model (mkdir, open 'w', write_bytes, touch)."
 )
 ASSUMPTIONS = [
     "Reader.compress_file is lossless and atomically published (C02; mtscomp trusted)",
